@@ -448,6 +448,13 @@ func runC16Case(id string, c *c16Case) {
 	if c.Kind == "standard" {
 		checkSession()
 	}
+	if c.Kind == "telnet" && len(initial) > 0 && cl.openDur < c16TelnetTimeout*17/40 {
+		// Open returned after the first-byte window alone: the opening was not there yet (scheduling),
+		// so nothing was buffered and these bytes are ordinary stream data
+		sends = append(append([]byte(nil), initial...), sends...)
+		initial = nil
+		cs.Kind += "/opening-late"
+	}
 	rd := startC16Reader(cl, c.N)
 	// the stream this end must see, in order.  With a marker the peer announces that the pipe is up
 	// (pty made raw / remote shell started); whatever precedes it (ssh's own chatter on the pty) is
